@@ -381,3 +381,57 @@ _c = Contract('monoidal.Functor.__call__', params=_p_eval, ensures=_e_eval, prop
               loops={0: LoopSpec(assume=_ev_assume, check=_ev_check)})
 _c.label = 'monoidal.Functor.__call__[python]'
 CONTRACTS[_c.label] = _c
+
+
+# ====================================================================================================================
+# The two mappings cartesian.Diagram.__call__ hands to PythonFunctor, read from the real AST on every run: the lambdas
+# `ob` and `ar` of its one statement are executed on a symbolic type / box.  This is what the call-site reading of a
+# PythonFunctor (world.functor_ty / functor_call with F.python) relies on.
+def _lemma_quivers(interp):
+    import ast
+    from pyvc import frontend
+    from pyvc.interp import Env
+    ex = interp.ex
+    node, _ = frontend.find('cartesian.Diagram.__call__')
+    calls = [c for c in ast.walk(node) if isinstance(c, ast.Call) and isinstance(c.func, ast.Name)
+             and c.func.id == 'PythonFunctor']
+    kws = {k.arg: k.value for c in calls for k in c.keywords}
+    if len(calls) == 1 and len(calls[0].args) == 2 and not kws:
+        kws = dict(zip(('ob', 'ar'), calls[0].args))
+    shape = len(calls) == 1 and set(kws) == {'ob', 'ar'} and all(isinstance(v, ast.Lambda) for v in kws.values())
+    ex.prove('C19:Diagram.__call__ builds one PythonFunctor from two lambdas ob, ar', z3.BoolVal(bool(shape)))
+    if not shape:
+        return
+
+    def closure(e):
+        fn = ast.FunctionDef(name='<lambda>', args=e.args, body=[ast.Return(value=e.body)], decorator_list=[])
+        ast.copy_location(fn, e)
+        ast.fix_missing_locations(fn)
+        return VClosure(fn, Env(None, {}), 'cartesian.Diagram.__call__.<lambda>')
+    w = interp.world
+    # ob: a type goes to the PRO of its length
+    t = z3.Const('t', T.TyS)
+    img = w.call(interp, closure(kws['ob']), [VTy(t)], {}, None)
+    ok = isinstance(img, VTy)
+    ex.prove('C19:ob sends a type to a type', z3.BoolVal(ok))
+    if ok:
+        ex.prove('C19:ob(t) is PRO(len(t))', T.ty_eq(img.t, T.pro_of(z3.Length(t))))
+        ex.prove('C19:ob(t) has as many wires as t', z3.Length(img.t) == z3.Length(t))
+    # ar: a box goes to the Function of its own python function between the PROs of its lengths
+    b = z3.Const('b', T.BoxS)
+    m = z3.Length(T.bcod(b))
+    f = VPyFun('box', m, out=lambda x, b=b: T.boxout(b, x))
+    img = w.call(interp, closure(kws['ar']), [VBox(b, extra={'function': f})], {}, None)
+    ok = isinstance(img, VObject) and img.cls == 'cartesian.Function'
+    ex.prove('C19:ar sends a box to a Function', z3.BoolVal(ok))
+    if ok:
+        a = img.attrs
+        ex.prove("C19:ar(box) wraps the box's own function", z3.BoolVal(a.get('function') is f and a.get('_function') is f))
+        ex.prove('C19:ar(box).dom is PRO(len(box.dom))', T.ty_eq(a['dom'].t, T.pro_of(z3.Length(T.bdom(b)))))
+        ex.prove('C19:ar(box).cod is PRO(len(box.cod))', T.ty_eq(a['cod'].t, T.pro_of(z3.Length(T.bcod(b)))))
+        ex.prove('C19:ar(box) takes len(box.dom) values', z3.Length(a['dom'].t) == z3.Length(T.bdom(b)))
+        ex.prove('C19:ar(box) returns len(box.cod) values', z3.Length(a['cod'].t) == z3.Length(T.bcod(b)))
+
+
+from .core import lemma  # noqa
+lemma('cartesian.Diagram.__call__.quivers', _lemma_quivers, ('C19',))
